@@ -8,6 +8,7 @@ import JumanjiModel.Env.TSP.Lemmas
 import JumanjiModel.Env.TSP.Bounds
 import JumanjiModel.Env.TSP.SmallLemmas
 import JumanjiModel.Env.TSP.GenLemmas
+import JumanjiModel.Env.TSP.Spec
 open Jm TSP
 
 namespace Props.C01
@@ -51,6 +52,74 @@ theorem tsp_reset_position_outside_declared (n : Nat) (coords : List (List Rat))
 
 example : validDraw 3 [[0, 0], [1, 0], [1/2, 1]] := by decide +kernel
 example : ObsInv 3 ⟨[[0, 0], [1, 0], [1, 1]], 1, [false, true, false], [1, -1, -1], 1⟩ := by decide +kernel
+
+/-! #### full spec membership (structure, shapes, dtypes, bounds) — Env/TSP/Spec.lean
+
+`obsSpec n` / `actionSpec n` are the declared `observation_spec` / `action_spec` of a `num_cities = n` environment as
+values of the spec algebra (Spec/Spec.lean); `toNValue o` is the model observation as the four arrays the implementation
+emits, every shape read off the value; `Nested.valid` is the transliteration of `validate`. -/
+
+open Sp PzS in
+/-- the symbolic specs ARE the specs generated from the real spec objects (Gen/Specs.lean) for the catalogue
+configuration `tsp-6` -/
+theorem tsp_obsSpec_generated :
+    prefixed "observation_spec." (obsSpec 6) = declared "tsp-6" "observation_spec." ∧
+    [("action_spec", actionSpec 6)] = declared "tsp-6" "action_spec" := by
+  refine ⟨by decide, by decide⟩
+
+/-- the observation of every `step` with an action of the action spec (`a < n`, legal or not, terminal step included;
+any distance matrix, penalty, reward function) from a state satisfying `SpecInv n` is accepted by
+`observation_spec.validate`: coordinates `(n, 2)` float32 in [0, 1]; position `()` int32 in [0, n−1]; trajectory `(n,)`
+int32 in [−1, n−1]; action_mask `(n,)` bool -/
+theorem tsp_step_obs_valid (n : Nat) (D : Dist) (pen : Rat) (dense : Bool) (s : State) (a : Nat) (ha : a < n)
+    (h : SpecInv n s) : (obsSpec n).valid (toNValue (step n D pen dense s a).2.obs) = true :=
+  TSP.step_obs_valid n D pen dense s a ha h
+
+/-- `SpecInv n` (feasible partial tour over `n` cities of the unit square) is established by `reset` for every valid
+draw, preserved by every in-spec step, hence holds in every state of every in-spec play from `reset` -/
+theorem tsp_reset_specInv (n : Nat) (coords : List (List Rat)) (h : validDraw n coords) :
+    SpecInv n (reset n coords).1 := TSP.reset_specInv n coords h
+theorem tsp_step_specInv (n : Nat) (D : Dist) (pen : Rat) (dense : Bool) (s : State) (a : Nat) (ha : a < n)
+    (h : SpecInv n s) : SpecInv n (step n D pen dense s a).1 := TSP.step_specInv n D pen dense s a ha h
+theorem tsp_obs_valid_along (n : Nat) (D : Dist) (pen : Rat) (dense : Bool) (coords : List (List Rat))
+    (h : validDraw n coords) (as : List Nat) (hok : ∀ a ∈ as, a < n) (a : Nat) (ha : a < n) :
+    (obsSpec n).valid (toNValue (step n D pen dense
+      ((Ep.ofStep (fun s (a : Nat) => step n D pen dense s (a : Int)) (·.numVisited)).run (reset n coords).1 as) a).2.obs) =
+      true :=
+  TSP.step_obs_valid n D pen dense _ a ha
+    (TSP.specInv_along n D pen dense _ as hok (TSP.reset_specInv n coords h))
+
+/-- finding F5 as a theorem about the model (the real code agrees: known_findings.json F5): for EVERY `n` and EVERY
+coordinates `observation_spec.validate` REJECTS the reset observation, because `position = −1` is outside
+`DiscreteArray(num_cities)` … -/
+theorem tsp_reset_obs_not_valid (n : Nat) (coords : List (List Rat)) :
+    (obsSpec n).valid (toNValue (reset n coords).2.obs) = false := TSP.reset_obs_not_valid n coords
+
+/-- … and `position` is the ONLY offending leaf: the reset observation of every valid draw is a member of the spec whose
+position leaf is `BoundedArray((), int32, −1, n−1)` (all other leaves as declared) -/
+theorem tsp_reset_obs_valid_wide (n : Nat) (hn : 0 < n) (coords : List (List Rat)) (h : validDraw n coords) :
+    (obsSpecWide n).valid (toNValue (reset n coords).2.obs) = true := TSP.reset_obs_valid_wide n hn coords h
+
+/-- what membership means (so the theorems above are not hollow) -/
+theorem tsp_obs_valid_only (n : Nat) (o : Obs) (h : (obsSpec n).valid (toNValue o) = true) :
+    o.coords.length = n ∧ (∀ x ∈ o.coords.flatten, 0 ≤ x ∧ x ≤ 1) ∧ (0 ≤ o.position ∧ o.position < n) ∧
+    o.trajectory.length = n ∧ (∀ c ∈ o.trajectory, -1 ≤ c ∧ c < n) ∧ o.mask.length = n := TSP.obs_valid_only n o h
+
+/-- `action_spec.generate_value()` (= city 0) is a member of `action_spec` (every `n ≥ 1`) and is accepted by `step` in
+every state of the invariant: the answer is a MID or LAST timestep whose observation is a member of `observation_spec`
+(reward and discount: `tsp_step_reward_discount_in_spec`, Props/C01.lean) -/
+theorem tsp_step_accepts_generate (n : Nat) (hn : 0 < n) (D : Dist) (pen : Rat) (dense : Bool) (s : State)
+    (h : SpecInv n s) :
+    (actionSpec n).generate = ⟨[], .int32, [0]⟩ ∧ (actionSpec n).valid (actionSpec n).generate = true ∧
+    (obsSpec n).valid (toNValue (step n D pen dense s ((0 : Nat) : Int)).2.obs) = true ∧
+    ((step n D pen dense s ((0 : Nat) : Int)).2.stepType = .mid ∨
+     (step n D pen dense s ((0 : Nat) : Int)).2.stepType = .last) := TSP.step_accepts_generate n hn D pen dense s h
+
+example : SpecInv 3 ⟨[[0, 0], [1, 0], [1, 1]], 1, [false, true, false], [1, -1, -1], 1⟩ := by decide +kernel
+example : (obsSpec 3).valid (toNValue ⟨[[0, 0], [1, 0], [1, 1]], 1, [1, -1, -1], [true, false, true]⟩) = true ∧
+    (obsSpec 3).valid (toNValue ⟨[[0, 0], [1, 0], [1, 1]], 3, [1, -1, -1], [true, false, true]⟩) = false ∧
+    (obsSpec 3).valid (toNValue ⟨[[0, 0], [1, 0], [1, 1]], 1, [1, 3, -1], [true, false, true]⟩) = false ∧
+    (obsSpec 3).valid (toNValue ⟨[[0, 0], [1, 0]], 1, [1, -1, -1], [true, false, true]⟩) = false := by decide +kernel
 end Props.C01
 
 namespace Props.C04
@@ -62,7 +131,19 @@ theorem tsp_mask_iff_legal (s : State) (a : Nat) : (obsOf s).mask.getD a false =
 theorem tsp_step_agrees (s : State) (a : Nat) (ha : a < s.visited.length) :
     isValid s (a : Int) = true ↔ legal s a := TSP.isValid_iff_legal s a ha
 
+/-- the same stated about `step` itself (audit: `tsp_step_agrees` speaks of the auxiliary `isValid` only): on a feasible
+state and an in-range city, a legal move is carried out (the successor is `visit s a`: position, visited flag, route,
+counter), an illegal one changes nothing and ends the episode (with the penalty: `tsp_illegal_terminates`, C05); hence the
+move is counted iff it was legal — a masked-in city (`tsp_mask_iff_legal`) is never treated as invalid, no legal city is refused -/
+theorem tsp_step_agrees_step (n : Nat) (D : Dist) (pen : Rat) (dense : Bool) (s : State) (a : Nat) (hf : Feasible n s)
+    (ha : a < n) :
+    (legal s a → (step n D pen dense s a).1 = visit s a) ∧
+    (¬ legal s a → (step n D pen dense s a).1 = s ∧ (step n D pen dense s a).2.stepType = .last) ∧
+    (legal s a ↔ (step n D pen dense s a).1.numVisited = s.numVisited + 1) :=
+  TSP.step_agrees_step n D pen dense s a hf ha
+
 example : legal ⟨[[0, 0], [1, 0], [1, 1]], 1, [false, true, false], [1, -1, -1], 1⟩ 2 := by decide
+example : ¬ legal ⟨[[0, 0], [1, 0], [1, 1]], 1, [false, true, false], [1, -1, -1], 1⟩ 1 := by decide
 end Props.C04
 
 namespace Props.C05
@@ -118,6 +199,13 @@ theorem tsp_feasible_along (n : Nat) (D : Dist) (pen : Rat) (dense : Bool) (u : 
 /-- mask-respecting = legal at every turn -/
 theorem tsp_allMasked_iff_allLegal (n : Nat) (D : Dist) (pen : Rat) (dense : Bool) (s : State) (as : List Nat) :
     AllMasked n D pen dense s as ↔ AllLegal n D pen dense s as := TSP.allMasked_iff n D pen dense as s
+
+/-- whole episodes, completion: a mask-respecting episode of `n` moves from ANY generated instance ends in a complete
+tour — feasible, and every one of the `n` cities visited exactly once -/
+theorem tsp_episode_complete_is_solution (n : Nat) (D : Dist) (pen : Rat) (dense : Bool) (u : List (List Rat))
+    (as : List Nat) (hm : AllMasked n D pen dense (generate n u) as) (hlen : as.length = n) :
+    IsSolution n (play n D pen dense (generate n u) as).1 :=
+  TSP.episode_complete_is_solution n D pen dense u as hm hlen
 
 -- a mask-respecting complete episode on a generated 3-city instance
 example : AllMasked 3 [[0, 1, 2], [1, 0, 1], [2, 1, 0]] (-5) true (generate 3 [[0, 0], [1/2, 0], [3/4, 0]]) [1, 0, 2] := by
@@ -262,6 +350,21 @@ theorem tsp_progress (n : Nat) (D : Dist) (pen : Rat) (dense : Bool) (s : State)
     (hnl : (step n D pen dense s a).2.stepType ≠ .last) :
     (step n D pen dense s a).1.numVisited = s.numVisited + 1 ∧
     (step n D pen dense s a).1.numVisited ≠ n := TSP.progress n D pen dense s a hnl
+
+/-- whole episodes (audit: `tsp_progress` is a single step): from EVERY reset state (any `n ≥ 1`, any coordinates), EVERY
+list of at least `n` actions of the action spec (`a < n`) — legal or not — contains a LAST timestep, and the first one has
+(1-based) index ≤ `n`: no episode outlasts the structural horizon `num_cities`.  `Ep.rollout` iterates the L1 `step`,
+`Ep.firstLastTS` is what harness/props/c11.py measures (Core/Episode.lean). -/
+theorem tsp_ends_within_horizon (n : Nat) (hn : 0 < n) (D : Dist) (pen : Rat) (dense : Bool) (coords : List (List Rat))
+    (as : List Nat) (hok : ∀ a ∈ as, a < n) (hlen : n ≤ as.length) :
+    ∃ k, Ep.firstLastTS ((Ep.rollout (fun s (a : Nat) => step n D pen dense s (a : Int)) (reset n coords).1 as).map
+      (·.2)) = some k ∧ 0 < k ∧ k ≤ n := TSP.ends_within_horizon n hn D pen dense coords as hok hlen
+
+/-- the horizon is attained (a legal tour of 3 cities ends at step 3) and undercut by an illegal move (step 2) -/
+example : Ep.firstLastTS ((Ep.rollout (fun s (a : Nat) => step 3 [[0, 1, 2], [1, 0, 1], [2, 1, 0]] (-5) true s (a : Int))
+      (reset 3 [[0, 0], [1, 0], [2, 0]]).1 [1, 0, 2]).map (·.2)) = some 3 ∧
+    Ep.firstLastTS ((Ep.rollout (fun s (a : Nat) => step 3 [[0, 1, 2], [1, 0, 1], [2, 1, 0]] (-5) true s (a : Int))
+      (reset 3 [[0, 0], [1, 0], [2, 0]]).1 [1, 1, 2]).map (·.2)) = some 2 := by decide +kernel
 end Props.C11
 
 namespace Props.C12
